@@ -99,6 +99,18 @@ type MW struct {
 	WriteOut
 	Lens [8]int
 	Renc [8]bool // stored uncompressed because the compressed form was larger (block re-encoded)
+	Raw  [8]int  // uncompressed lengths
+}
+
+// Compressed tells whether at least one column of the write-out is stored compressed (Len < RawLen, not re-encoded):
+// only then the writer relies on the file position set when the column file was opened
+func (w MW) Compressed() bool {
+	for c := 0; c < 8; c++ {
+		if w.Lens[c] > 0 && w.Lens[c] < w.Raw[c] && !w.Renc[c] {
+			return true
+		}
+	}
+	return false
 }
 
 // CoqW prints a `writeout`
@@ -246,6 +258,7 @@ func Measure(scratch string, hist []WriteOut) ([]MW, error) {
 			for _, b := range bl {
 				if b.Timestamp == w.TS {
 					out[j].Lens[c] = int(b.Len)
+					out[j].Raw[c] = int(b.RawLen)
 					// the writer is configured with LZ4: a non-empty block stored with the null encoder was re-encoded
 					out[j].Renc[c] = b.Len > 0 && b.EncoderType == encoders.EncoderTypeNull
 					found = true
